@@ -17,7 +17,12 @@ for log in sys.argv[1:]:
                 pr, n = base[len("seed%s_" % rnd):].rsplit("_", 1)
                 sid = "%s_r%s_%s" % (pr, rnd, n)
         confirmed = ex == "pass" and dw == "fail" and dwo == "pass"
-        detail = [x for x in lines[i + 1:i + 8] if x and not x.startswith("SEED")]
+        detail = []
+        for x in lines[i + 1:i + 8]:
+            if x.startswith("SEED"):
+                break
+            if x:
+                detail.append(x)
         rule = next((x.split(":", 1)[1].strip() for x in detail if x.strip().startswith("monitor:")), None)
         dst = os.path.join(V, "seeded", sid)
         if not confirmed:
